@@ -1880,7 +1880,7 @@ def multi_statepoint_stream(ctx, rng):
             if len(states) >= 2:
                 # ONE long-lived object: latest first (B then A), in writing order, and the first one again (A, B, A)
                 n = len(states)
-                for k in list(range(n))[::-1] + (list(range(n)) if (ctx.thorough or n <= 4) else []) + [0]:
+                for k in list(range(n))[::-1] + (list(range(n)) if (ctx.thorough or fx == "smallest") else []) + [0]:
                     history.append(["l", list(states[k][0]), len(ops)])
                     load_via(db, k, "loaded through the one long-lived Database object")
                 # delete an address and write ANOTHER state there; its neighbours (same cycle/node, other label) stay
@@ -2068,7 +2068,7 @@ def file_model_correspondence(ctx, rng, req, impl, cases):
         o, r = load_fixture("smallest")
     sfp = [c for c in r if c is not r.core and isinstance(c.spatialLocator, grids.CoordinateLocation)]
     sfp = sfp[0] if sfp else None
-    for h in range(ctx.pick(8, 50)):
+    for h in range(ctx.pick(6, 50)):
         fn = f"hist-{h}.h5"
         pool = [(rng.randrange(2), rng.randrange(2), rng.choice(["", "", "EOL", "-shuffled"])) for _ in range(rng.randint(2, 4))]
         cy0, nd0 = pool[0][0], pool[0][1]
@@ -2120,9 +2120,10 @@ def file_model_correspondence(ctx, rng, req, impl, cases):
                     ops.append(f"[r,{name}]")
                     out.append(read(db, cy, nd_, lab))
                     ctx.count("file history: load " + ("absent" if out[-1] == "_" else "present") + " (long-lived object)")
-            # every address of the pool once more through the long-lived object, then through a fresh one
+            # the label-neighbours of the first address once more through the long-lived object (A, B, A), then every
+            # address of the pool through a fresh one
             final = sorted(set(pool))
-            for cy, nd_, lab in final:
+            for cy, nd_, lab in [(cy0, nd0, ""), (cy0, nd0, "-x"), (cy0, nd0, "")]:
                 ops.append(f"[r,{dbmod.getH5GroupName(cy, nd_, lab or None)}]")
                 out.append(read(db, cy, nd_, lab))
             db.close(True)
